@@ -329,6 +329,8 @@ def parseLine (p : Parsed) (line : String) : Parsed :=
     match parseOp rest with
     | some op => { p with ops := p.ops ++ [op] }
     | none => { p with bad := true }
+  -- harness-only: a second, independent dispatcher doing other things in the same process
+  | "decoy" :: _ => p
   | [] => p
   | _ => { p with bad := true }
 
